@@ -259,8 +259,16 @@ def get_source_info_str(source, ignore_encoding=True):
 
     line_tally = 10000  # Check up to this number of non-comment lines
     is_free = False
+    in_directive = False
     while line_tally > 0 and lines:
         line = lines.pop(0).rstrip()
+        if in_directive:
+            # This line continues a preprocessor directive that ended
+            # with a backslash: it is not Fortran either.
+            in_directive = line.endswith("\\")
+            continue
+        if line.lstrip().startswith("#"):
+            in_directive = line.endswith("\\")
         if line and line[0] != "!" and not line.lstrip().startswith("#"):
             line_tally -= 1
             if line[0] != "\t" and _FREE_FORMAT_START(line[:5]) or line[-1:] == "&":
